@@ -73,6 +73,96 @@ type Case struct {
 	Relation string            `json:"relation"` // how URI was derived (label only)
 	Prelude  string            `json:"prelude,omitempty"` // an earlier, unrelated logout on the same provider: "" | otherhost | samehost
 	State    string            `json:"state,omitempty"`
+	// Neighbour: a second provider in the same process (own storage, own registrations of client-a / client-b, own signing
+	// key published under the SAME kid as the provider under test)
+	Neighbour *Neighbour `json:"neighbour,omitempty"`
+	// History: what happened in the process before the request under test (after the hint's own flow and Prelude)
+	History []PreOp `json:"history,omitempty"`
+}
+
+type Neighbour struct {
+	Key       string `json:"key"`
+	Alg       string `json:"alg"`
+	OwnIssuer bool   `json:"own_issuer,omitempty"` // false: configured with the same issuer (mode) as the provider under test
+}
+
+// PreOp is one earlier event: an ordinary logout / a flow followed by a logout at either provider, or a change of the
+// keys the storage of the provider under test serves.
+type PreOp struct {
+	Who  string `json:"who"`            // self | neighbour
+	Kind string `json:"kind"`           // logout | flow | rotate-keep | rotate-withdraw | rotate-withdraw-samekid | withdraw-old
+	Host string `json:"host,omitempty"` // self logout / flow: "" = host of the request under test | other
+	Key  string `json:"key,omitempty"`  // self logout: the published key that signs its hint ("" = the signing key); rotate-*: the next signing key
+}
+
+// keyState is what the storage of the provider under test serves (simulated by the generator, applied to the store by run).
+type keyState struct {
+	sign      vkit.SignKeySpec
+	pubs      []vkit.PubKeySpec
+	withdrawn []vkit.PubKeySpec
+	n         int
+}
+
+func newKeyState(p ProvCfg) *keyState {
+	ks := &keyState{sign: p.Sign, pubs: []vkit.PubKeySpec{{KeyName: p.Sign.KeyName, Alg: p.Sign.Alg, KID: p.Sign.KID, Use: "sig"}}}
+	if p.ExtraPub != nil {
+		ks.pubs = append(ks.pubs, *p.ExtraPub)
+	}
+	return ks
+}
+
+func (ks *keyState) published(name string) (string, bool) {
+	for _, k := range ks.pubs {
+		if k.KeyName == name {
+			return k.KID, true
+		}
+	}
+	return "", false
+}
+
+// apply performs a key change (false: not a key change, or not applicable in this state).
+func (ks *keyState) apply(o PreOp) bool {
+	if o.Who != "self" {
+		return false
+	}
+	keep := func(names ...string) {
+		var pubs []vkit.PubKeySpec
+		for _, k := range ks.pubs {
+			if contains(names, k.KeyName) {
+				pubs = append(pubs, k)
+			} else {
+				ks.withdrawn = append(ks.withdrawn, k)
+			}
+		}
+		ks.pubs = pubs
+	}
+	switch o.Kind {
+	case "rotate-keep", "rotate-withdraw", "rotate-withdraw-samekid":
+		if !contains(vkit.KeyNames, o.Key) || !vkit.AlgFitsKey(ks.sign.Alg, vkit.Key(o.Key)) {
+			return false
+		}
+		if _, dup := ks.published(o.Key); dup {
+			return false
+		}
+		ks.n++
+		next := vkit.SignKeySpec{KeyName: o.Key, Alg: ks.sign.Alg, KID: fmt.Sprintf("sig-%s-%d", o.Key, ks.n)}
+		if o.Kind == "rotate-withdraw-samekid" {
+			next.KID = ks.sign.KID
+		}
+		if o.Kind != "rotate-keep" {
+			keep()
+		}
+		ks.sign = next
+		ks.pubs = append(ks.pubs, vkit.PubKeySpec{KeyName: next.KeyName, Alg: next.Alg, KID: next.KID, Use: "sig"})
+		return true
+	case "withdraw-old":
+		if len(ks.pubs) < 2 {
+			return false
+		}
+		keep(ks.sign.KeyName)
+		return true
+	}
+	return false
 }
 
 const (
@@ -436,6 +526,7 @@ var hintClasses = []string{
 	"wrongkey", "wrongkey", "tamper", "tamper", "tamper", "wrongiss", "wrongiss", "wrongiss",
 	"real-implicit", "real-code", "real-otherhost", "real-otherhost",
 	"azpless", "unknown-azp", "grey-kid", "grey-alg", "grey-claims", "garbage", "garbage",
+	"neighbour-key", "neighbour-key", "withdrawn-key", "withdrawn-key",
 	"absent", "absent", "absent", "empty",
 }
 
@@ -485,6 +576,18 @@ func genCase0(t *rapid.T) Case {
 		p.ExtraPub = &vkit.PubKeySpec{KeyName: sc.second, Alg: sc.alg, KID: "old-" + sc.second, Use: "sig"}
 	}
 
+	// the earlier life of the process: a neighbouring provider, earlier logouts / flows, key changes of the storage
+	ks := newKeyState(*p)
+	if class == "neighbour-key" || class == "withdrawn-key" || rapid.IntRange(0, 9).Draw(t, "life") < 4 {
+		genHistory(t, &c, sc, class)
+		for _, o := range c.History {
+			ks.apply(o)
+		}
+	}
+	if class == "withdrawn-key" && len(ks.withdrawn) == 0 || class == "neighbour-key" && c.Neighbour == nil {
+		class = "wrongkey"
+	}
+
 	hintClient := rapid.SampledFrom([]string{clientA, clientA, clientB}).Draw(t, "hintclient")
 	user := rapid.SampledFrom(vkit.AllUserIDs).Draw(t, "user")
 	h := &c.Hint
@@ -494,7 +597,8 @@ func genCase0(t *rapid.T) Case {
 		h.Iss, h.Sub, h.Azp, h.Aud = "right", user, hintClient, []string{hintClient}
 		h.ExpRel = rapid.SampledFrom([]int{3600, 300, 5, 2}).Draw(t, "exp")
 		h.IatRel = rapid.SampledFrom([]int{-5, -60, -7200, -2}).Draw(t, "iat")
-		h.Key, h.KID, h.Alg = p.Sign.KeyName, p.Sign.KID, p.Sign.Alg
+		// signed with the key the storage signs with at the time of the request
+		h.Key, h.KID, h.Alg = ks.sign.KeyName, ks.sign.KID, ks.sign.Alg
 		switch rapid.IntRange(0, 5).Draw(t, "aud2") {
 		case 0:
 			h.Aud = append(h.Aud, "https://api.example.com")
@@ -544,6 +648,21 @@ func genCase0(t *rapid.T) Case {
 		h.Key, h.Alg = sc.wrong, sc.wrongAlg
 		h.KID = rapid.SampledFrom([]string{p.Sign.KID, p.Sign.KID, "sig-" + sc.wrong, ""}).Draw(t, "wkid")
 		if rapid.Bool().Draw(t, "wexpired") {
+			h.ExpRel, h.IatRel = -3600, -7200
+		}
+	case "withdrawn-key":
+		// signed by a key the storage served earlier in this case and has withdrawn since
+		forged()
+		k := rapid.SampledFrom(ks.withdrawn).Draw(t, "wdkey")
+		h.Key, h.KID = k.KeyName, k.KID
+		if rapid.IntRange(0, 3).Draw(t, "wdexpired") == 0 {
+			h.ExpRel, h.IatRel = -3600, -7200
+		}
+	case "neighbour-key":
+		// signed by the neighbouring provider's key (published there under the kid of this provider's first key)
+		forged()
+		h.Key, h.Alg, h.KID = c.Neighbour.Key, c.Neighbour.Alg, p.Sign.KID
+		if rapid.IntRange(0, 3).Draw(t, "nbexpired") == 0 {
 			h.ExpRel, h.IatRel = -3600, -7200
 		}
 	case "tamper":
@@ -630,6 +749,96 @@ func genCase0(t *rapid.T) Case {
 		rapid.Just(""), rapid.SampledFrom(specialStates), rapid.SampledFrom(specialStates), rapid.String(), rapid.StringN(100, 600, 2400),
 	).Draw(t, "state")
 	return c
+}
+
+// genHistory draws the neighbour and 0-3 earlier events. Class withdrawn-key starts with an ordinary logout whose hint
+// is signed by the key that is withdrawn next (where the key pool has a spare key of the algorithm, or a second published key).
+func genHistory(t *rapid.T, c *Case, sc signCfg, class string) {
+	p := &c.Prov
+	if class == "neighbour-key" || rapid.IntRange(0, 2).Draw(t, "neighbour") > 0 {
+		c.Neighbour = &Neighbour{Key: sc.wrong, Alg: sc.wrongAlg, OwnIssuer: rapid.Bool().Draw(t, "nb-ownissuer")}
+	}
+	// the spare key a rotation moves to
+	next := sc.second
+	if p.ExtraPub != nil && p.ExtraPub.KeyName == next {
+		next = ""
+	}
+	if next == "" && c.Neighbour == nil && sc.wrongAlg == sc.alg {
+		next = sc.wrong
+	}
+	ks := newKeyState(*p)
+	add := func(o PreOp) {
+		c.History = append(c.History, o)
+		if ks.apply(o) && strings.HasPrefix(o.Kind, "rotate") {
+			next = ""
+		}
+	}
+	keyOps := func() []string {
+		var out []string
+		if next != "" {
+			out = append(out, "rotate-keep", "rotate-withdraw", "rotate-withdraw-samekid")
+		}
+		if len(ks.pubs) > 1 {
+			out = append(out, "withdraw-old", "withdraw-old")
+		}
+		return out
+	}
+	hostOf := func(l string) string {
+		if p.IssuerMode == "host" && rapid.IntRange(0, 2).Draw(t, l) == 0 {
+			return "other"
+		}
+		return ""
+	}
+	if class == "withdrawn-key" {
+		var wd []string
+		for _, k := range keyOps() {
+			if k != "rotate-keep" {
+				wd = append(wd, k)
+			}
+		}
+		if len(wd) > 0 {
+			kind := rapid.SampledFrom(wd).Draw(t, "wd-op")
+			victim := ""
+			if kind == "withdraw-old" {
+				for _, k := range ks.pubs {
+					if k.KeyName != ks.sign.KeyName {
+						victim = k.KeyName
+					}
+				}
+			}
+			if rapid.IntRange(0, 3).Draw(t, "wd-warm") > 0 {
+				add(PreOp{Who: "self", Kind: rapid.SampledFrom([]string{"logout", "logout", "flow"}).Draw(t, "wd-warmkind"), Key: victim, Host: hostOf("wd-host")})
+			}
+			o := PreOp{Who: "self", Kind: kind}
+			if kind != "withdraw-old" {
+				o.Key = next
+			}
+			add(o)
+		}
+	}
+	n := rapid.IntRange(0, 3).Draw(t, "history")
+	for i := 0; i < n && len(c.History) < 4; i++ {
+		l := fmt.Sprintf("h%d-", i)
+		kinds := []string{"self-logout", "self-logout", "self-flow"}
+		if c.Neighbour != nil {
+			kinds = append(kinds, "neighbour-logout", "neighbour-logout", "neighbour-logout", "neighbour-flow", "neighbour-flow")
+		}
+		kinds = append(kinds, keyOps()...)
+		switch k := rapid.SampledFrom(kinds).Draw(t, l+"kind"); k {
+		case "self-logout", "self-flow":
+			o := PreOp{Who: "self", Kind: strings.TrimPrefix(k, "self-"), Host: hostOf(l + "host")}
+			if len(ks.pubs) > 1 && o.Kind == "logout" && rapid.Bool().Draw(t, l+"oldkey") {
+				o.Key = rapid.SampledFrom(ks.pubs).Draw(t, l+"key").KeyName
+			}
+			add(o)
+		case "neighbour-logout", "neighbour-flow":
+			add(PreOp{Who: "neighbour", Kind: strings.TrimPrefix(k, "neighbour-")})
+		case "withdraw-old":
+			add(PreOp{Who: "self", Kind: k})
+		default:
+			add(PreOp{Who: "self", Kind: k, Key: next})
+		}
+	}
 }
 
 func contains(l []string, s string) bool {
@@ -965,11 +1174,8 @@ func run(c Case) (res *vkit.Result) {
 		byID[cl.ID] = &cl
 	}
 	st := vkit.NewStore(cls, c.Prov.Sign, vkit.StorePolicy{ErrStyle: c.ErrStyle})
-	published := map[string]string{c.Prov.Sign.KeyName: c.Prov.Sign.KID}
-	if c.Prov.ExtraPub != nil {
-		st.PubKeys = append(st.PubKeys, *c.Prov.ExtraPub)
-		published[c.Prov.ExtraPub.KeyName] = c.Prov.ExtraPub.KID
-	}
+	ks := newKeyState(c.Prov)
+	st.PubKeys = append([]vkit.PubKeySpec(nil), ks.pubs...)
 	spec := vkit.DefaultProviderSpec(c.Prov.Router)
 	spec.IssuerMode = c.Prov.IssuerMode
 	if spec.IssuerMode == "host" {
@@ -985,20 +1191,9 @@ func run(c Case) (res *vkit.Result) {
 	iss := issuerFor(c.Prov, c.Prov.Host)
 	now := time.Now()
 
-	// ---- the hint and what the model knows about it
-	var hf hintFacts
-	hintStr := ""
-	hintLabel := c.Hint.Kind
-	switch c.Hint.Kind {
-	case "absent", "empty", "":
-	case "garbage":
-		hintStr = c.Hint.Raw
-		hf = hintFacts{present: hintStr != "", status: "invalid", why: "garbage"}
-		if m := payloadOf(hintStr); m != nil {
-			// a random string that happens to be a compact token: nobody signed it
-			hf.why = "unsigned"
-		}
-	case "real":
+	// ---- a real hint is issued first: what follows (earlier requests, key changes) happens while the user holds it
+	realStr := ""
+	if c.Hint.Kind == "real" {
 		cl := byID[c.Hint.Client]
 		if cl == nil {
 			res.Grey = true
@@ -1009,66 +1204,7 @@ func run(c Case) (res *vkit.Result) {
 		if host == "" {
 			host = c.Prov.Host
 		}
-		hintStr = realHint(sut, c, cl, host)
-		m := payloadOf(hintStr)
-		if hintStr == "" || m == nil {
-			// the provider did not issue a token: nothing to present (other properties cover issuance)
-			res.Grey = true
-			res.Label("real-flow-yielded-no-token", "flow:"+c.Hint.Flow, "sign:"+c.Prov.Sign.Alg)
-			return res
-		}
-		hf = hintFacts{present: true, sub: str(m, "sub"), azp: str(m, "azp")}
-		hintLabel = "real-" + c.Hint.Flow
-		if str(m, "iss") == iss {
-			hf.status, hf.why = "valid", "issued-by-provider"
-		} else {
-			hf.status, hf.why = "invalid", "issued-for-other-issuer"
-			hintLabel += "-otherhost"
-		}
-		if hf.sub != c.Hint.User || hf.azp != c.Hint.Client {
-			res.Label("real-token-claims-unexpected")
-		}
-	case "forged":
-		h := c.Hint
-		if !contains(vkit.KeyNames, h.Key) || !vkit.AlgFitsKey(h.Alg, vkit.Key(h.Key)) {
-			res.Grey = true
-			res.Label("malformed-case")
-			return res
-		}
-		hintStr = forge(c, iss, now)
-		hf = hintFacts{present: true, sub: h.Sub, azp: h.Azp}
-		if h.NoAzp {
-			hf.azp = ""
-		}
-		if h.NoSub {
-			hf.sub = ""
-		}
-		kid, isPublished := published[h.Key]
-		switch {
-		case h.Tamper != "":
-			hf.status, hf.why = "invalid", "tamper:"+h.Tamper
-		case !isPublished:
-			hf.status, hf.why = "invalid", "unpublished-key"
-		case h.Iss != "right":
-			hf.status, hf.why = "invalid", "issuer:"+h.Iss
-		case h.KID != kid:
-			hf.status, hf.why = "grey", "kid"
-		case h.Alg != c.Prov.Sign.Alg:
-			hf.status, hf.why = "grey", "alg-not-configured"
-		case h.NoSub || h.NoExp || h.NoIat || h.IatRel > -2 || (!h.NoAzp && !contains(h.Aud, h.Azp)):
-			hf.status, hf.why = "grey", "claims-incomplete"
-		default:
-			hf.status, hf.why = "valid", "unexpired"
-			if h.ExpRel <= -2 {
-				hf.why = "expired"
-			} else if h.ExpRel < 2 {
-				hf.why = "expiring-now"
-			}
-			if h.Key != c.Prov.Sign.KeyName {
-				hf.why += "+rotated-key"
-			}
-		}
-		hintLabel = "forged-" + hf.status + ":" + hf.why
+		realStr = realHint(sut, c, cl, host)
 	}
 
 	// ---- an earlier, unrelated logout (the endpoint must not carry anything over from it)
@@ -1088,6 +1224,172 @@ func run(c Case) (res *vkit.Result) {
 			res.Fail("C18:rejected:no-uri:valid-unexpired", "prelude logout at host %s with a valid hint for that host's issuer was rejected: %s", ph, pr.Describe())
 		}
 		res.Label("prelude:" + c.Prelude)
+	}
+
+	// ---- the earlier life of the process: logouts / flows at this provider and at its neighbour, key changes of the storage
+	var nb *vkit.SUT
+	if c.Neighbour != nil && contains(vkit.KeyNames, c.Neighbour.Key) && vkit.AlgFitsKey(c.Neighbour.Alg, vkit.Key(c.Neighbour.Key)) {
+		var ncls []*vkit.ClientSpec
+		for i := range c.Clients {
+			cl := c.Clients[i]
+			ncls = append(ncls, &cl)
+		}
+		nst := vkit.NewStore(ncls, vkit.SignKeySpec{KeyName: c.Neighbour.Key, Alg: c.Neighbour.Alg, KID: c.Prov.Sign.KID}, vkit.StorePolicy{})
+		nspec := spec
+		if c.Neighbour.OwnIssuer {
+			nspec.IssuerMode, nspec.Issuer = "static", "https://neighbour.example.net"
+		}
+		if nb, err = vkit.Build(nspec, nst); err != nil {
+			panic("harness: build neighbour: " + err.Error())
+		}
+		res.Label("neighbour-provider")
+	}
+	history := c.History
+	if len(history) > 6 {
+		history = history[:6]
+	}
+	for i, o := range history {
+		// an ordinary logout: a valid hint of that provider for that host, no URI; or a real flow and a logout with its ID token
+		ordinary := func(s *vkit.SUT, host string, sign vkit.SignKeySpec) {
+			pag := vkit.NewAgent(s)
+			pag.Host = host
+			hint := ""
+			if o.Kind == "flow" {
+				cl := s.Store.Clients[clientA]
+				fl := pag.RunAuth(vkit.AuthParams(cl, cl.RedirectURIs[0], "id_token", "openid", "s", "n-h"), "u2")
+				if fl.Params != nil {
+					hint = fl.Params.Get("id_token")
+				}
+				if hint == "" {
+					res.Label("history:flow-yielded-no-token")
+					return
+				}
+			} else {
+				pc := Case{Prov: c.Prov, Hint: Hint{Kind: "forged", Iss: "right", Sub: "u3", Azp: clientA, Aud: []string{clientA}, ExpRel: 600, IatRel: -30,
+					Key: sign.KeyName, KID: sign.KID, Alg: sign.Alg}}
+				hint = forge(pc, s.IssuerFor(host), now)
+			}
+			pr := pag.EndSession(url.Values{"id_token_hint": {hint}, "state": {fmt.Sprintf("history-%d", i)}})
+			if pr.Panic != nil {
+				res.Fail("C18:panic@"+pr.PanicFrame(), "earlier logout (%s %s) panicked: %v", o.Who, o.Kind, pr.Panic)
+			} else if !pr.IsRedirect() {
+				res.Fail("C18:rejected:no-uri:valid-unexpired", "earlier ordinary logout (%+v) at host %s with a valid hint of that provider (signed by %s/%s) was rejected: %s", o, host, sign.KeyName, sign.KID, pr.Describe())
+			}
+		}
+		switch {
+		case o.Who == "neighbour" && nb != nil && (o.Kind == "logout" || o.Kind == "flow"):
+			ordinary(nb, c.Prov.Host, nb.Store.SignKey)
+			res.Label("history:neighbour-" + o.Kind)
+		case o.Who == "self" && (o.Kind == "logout" || o.Kind == "flow"):
+			host := c.Prov.Host
+			if o.Host == "other" && c.Prov.IssuerMode == "host" {
+				host = otherHost(host)
+			}
+			sign := ks.sign
+			if kid, ok := ks.published(o.Key); ok && o.Kind == "logout" {
+				sign = vkit.SignKeySpec{KeyName: o.Key, Alg: ks.sign.Alg, KID: kid}
+			}
+			ordinary(sut, host, sign)
+			res.Label("history:self-" + o.Kind)
+		case ks.apply(o):
+			st.SignKey, st.PubKeys = ks.sign, append([]vkit.PubKeySpec(nil), ks.pubs...)
+			res.Label("history:keys-" + o.Kind)
+		}
+	}
+	if len(ks.withdrawn) > 0 {
+		res.Label("storage-withdrew-a-key")
+	}
+
+	// ---- the hint and what the model knows about it
+	var hf hintFacts
+	hintStr := ""
+	hintLabel := c.Hint.Kind
+	switch c.Hint.Kind {
+	case "absent", "empty", "":
+	case "garbage":
+		hintStr = c.Hint.Raw
+		hf = hintFacts{present: hintStr != "", status: "invalid", why: "garbage"}
+		if m := payloadOf(hintStr); m != nil {
+			// a random string that happens to be a compact token: nobody signed it
+			hf.why = "unsigned"
+		}
+	case "real":
+		hintStr = realStr
+		m := payloadOf(hintStr)
+		if hintStr == "" || m == nil {
+			// the provider did not issue a token: nothing to present (other properties cover issuance)
+			res.Grey = true
+			res.Label("real-flow-yielded-no-token", "flow:"+c.Hint.Flow, "sign:"+c.Prov.Sign.Alg)
+			return res
+		}
+		hf = hintFacts{present: true, sub: str(m, "sub"), azp: str(m, "azp")}
+		hintLabel = "real-" + c.Hint.Flow
+		if str(m, "iss") == iss {
+			hf.status, hf.why = "valid", "issued-by-provider"
+		} else {
+			hf.status, hf.why = "invalid", "issued-for-other-issuer"
+			hintLabel += "-otherhost"
+		}
+		// it was signed by the storage's first key: a validly signed hint only while the storage still serves that key
+		if kid, ok := ks.published(c.Prov.Sign.KeyName); !ok {
+			hf.status, hf.why = "invalid", "withdrawn-key"
+			hintLabel += "-key-withdrawn"
+		} else if kid != c.Prov.Sign.KID && hf.status == "valid" {
+			hf.status, hf.why = "grey", "kid"
+		}
+		if hf.sub != c.Hint.User || hf.azp != c.Hint.Client {
+			res.Label("real-token-claims-unexpected")
+		}
+	case "forged":
+		h := c.Hint
+		if !contains(vkit.KeyNames, h.Key) || !vkit.AlgFitsKey(h.Alg, vkit.Key(h.Key)) {
+			res.Grey = true
+			res.Label("malformed-case")
+			return res
+		}
+		hintStr = forge(c, iss, now)
+		hf = hintFacts{present: true, sub: h.Sub, azp: h.Azp}
+		if h.NoAzp {
+			hf.azp = ""
+		}
+		if h.NoSub {
+			hf.sub = ""
+		}
+		kid, isPublished := ks.published(h.Key)
+		wasPublished := false
+		for _, k := range ks.withdrawn {
+			wasPublished = wasPublished || k.KeyName == h.Key
+		}
+		switch {
+		case h.Tamper != "":
+			hf.status, hf.why = "invalid", "tamper:"+h.Tamper
+		case !isPublished && wasPublished:
+			// a key of the provider once, not now: no valid signature
+			hf.status, hf.why = "invalid", "withdrawn-key"
+		case !isPublished && c.Neighbour != nil && h.Key == c.Neighbour.Key:
+			hf.status, hf.why = "invalid", "neighbour-key"
+		case !isPublished:
+			hf.status, hf.why = "invalid", "unpublished-key"
+		case h.Iss != "right":
+			hf.status, hf.why = "invalid", "issuer:"+h.Iss
+		case h.KID != kid:
+			hf.status, hf.why = "grey", "kid"
+		case h.Alg != c.Prov.Sign.Alg:
+			hf.status, hf.why = "grey", "alg-not-configured"
+		case h.NoSub || h.NoExp || h.NoIat || h.IatRel > -2 || (!h.NoAzp && !contains(h.Aud, h.Azp)):
+			hf.status, hf.why = "grey", "claims-incomplete"
+		default:
+			hf.status, hf.why = "valid", "unexpired"
+			if h.ExpRel <= -2 {
+				hf.why = "expired"
+			} else if h.ExpRel < 2 {
+				hf.why = "expiring-now"
+			}
+			if h.Key != ks.sign.KeyName {
+				hf.why += "+rotated-key"
+			}
+		}
+		hintLabel = "forged-" + hf.status + ":" + hf.why
 	}
 
 	// ---- the request
@@ -1347,7 +1649,7 @@ func directAPI(res *vkit.Result, c Case, cls []*vkit.ClientSpec) {
 
 var prop = vkit.Prop[Case]{
 	ID: "C18",
-	Rule: "cases = provider (router x issuer static/per-host x request host x TerminateSessionFromRequest capability x default logout URI x signing key/alg x optional second published key x GET/POST) x two generated client registrations (application type web / native / user_agent, dev mode, 0-3 post-logout URIs from a grammar incl. queries/fragments/custom schemes/'*'-containing exact entries, 0-2 post-logout globs with or without opt-in, authorization-only globs, 0-2 loopback post-logout URIs (http/https x 127.0.0.1/localhost/[::1] x port), native clients also loopback and custom-scheme authorization redirects) x id_token_hint (absent, empty, issued by the provider through an implicit or code flow (also at another host), forged with the provider's key: unexpired / expired / signed by a rotated published key / azp-less / unknown azp; signed by an unpublished key; 7 tamperings; 7 wrong issuers; kid / alg / claim oddities (grey); garbage) x client_id (absent, azp, other client, unknown) x post_logout_redirect_uri (registered, other client's, 20 near-miss relations, loopback variants of a registered loopback URI (other/no port, other loopback host spelling, other scheme, all three; port variant of an authorization-only loopback redirect) which are must-not-redirect for every application type, glob hit/miss/literal, default, omitted) x arbitrary state; " +
+	Rule: "cases = provider (router x issuer static/per-host x request host x TerminateSessionFromRequest capability x default logout URI x signing key/alg x optional second published key x GET/POST) x two generated client registrations (application type web / native / user_agent, dev mode, 0-3 post-logout URIs from a grammar incl. queries/fragments/custom schemes/'*'-containing exact entries, 0-2 post-logout globs with or without opt-in, authorization-only globs, 0-2 loopback post-logout URIs (http/https x 127.0.0.1/localhost/[::1] x port), native clients also loopback and custom-scheme authorization redirects) x id_token_hint (absent, empty, issued by the provider through an implicit or code flow (also at another host), forged with the provider's key: unexpired / expired / signed by a rotated published key / azp-less / unknown azp; signed by an unpublished key; 7 tamperings; 7 wrong issuers; kid / alg / claim oddities (grey); garbage) x client_id (absent, azp, other client, unknown) x the earlier life of the process (40% of the cases: a neighbouring provider in the same process with its own storage / registrations / signing key published under the SAME kid and the same or an own issuer; 0-3 earlier events in generated order: ordinary logouts and implicit flows + logout at this provider (either host, hint signed by any published key) or at the neighbour, key changes of this provider's storage: rotation with the old key kept / withdrawn (new or same kid), withdrawal of the second published key; hints signed by the neighbour's key under this provider's kid or by a key the storage has withdrawn (also real ID tokens issued before the withdrawal) are must-reject: 'validly signed' = under a key the storage serves at the time of the request) x post_logout_redirect_uri (registered, other client's, 20 near-miss relations, loopback variants of a registered loopback URI (other/no port, other loopback host spelling, other scheme, all three; port variant of an authorization-only loopback redirect) which are must-not-redirect for every application type, glob hit/miss/literal, default, omitted) x arbitrary state; " +
 		"oracle = independent model of (hint validity, proven client, registration) -> must-accept(requested|default) / must-reject / default-or-reject, Location compared as a user agent reads it (same URI, existing query kept, exactly one state=<state>), journal of TerminateSession*; sane registrations only (absolute URIs, glob patterns with '*' only); " +
 		"non-trivial = a hint is presented, or client_id together with a post_logout_redirect_uri; distinct = (router, application type, capability, method, issuer mode, alg, hint class, client_id relation, URI relation, model reason, expectation, state class, outcome)",
 	Gen: genCase,
